@@ -10,6 +10,8 @@ CONSTANTS
   FreshOldHash = TRUE
   DropMetaOnFail = TRUE
   UseIndirect = TRUE
+  WithAbsent = FALSE
+  CheckDepList = TRUE
 VIEW mcview
 INVARIANT OutEqualsCold
 INVARIANT FreshIsRight
